@@ -807,15 +807,19 @@ func oracle(stream, in, outPath string) {
 	var rs *loaded
 	verdict := ""
 	started := false
+	known := "" // a registered known-finding class met by this case (reported only when no clause is violated)
 	flush := func() {
 		if started {
-			if verdict == "" {
-				out.Line("OK")
-			} else {
+			switch {
+			case verdict != "":
 				out.Line(verdict)
+			case known != "":
+				out.Line(known)
+			default:
+				out.Line("OK")
 			}
 		}
-		verdict = ""
+		verdict, known = "", ""
 	}
 	var applyCfgs []rawCfg
 	for _, t := range wire.ReadLines(in) {
@@ -927,6 +931,7 @@ func oracle(stream, in, outPath string) {
 						g := strings.Count(l, "--gid-owner")
 						if g >= 50 && g <= 64 && n == 5*g+4 && strings.HasPrefix(l, "-A ISTIO_OUTPUT -m owner ! --gid-owner") {
 							hit("restore_argc.excluded-known-owner-groups-line")
+							known = "KNOWN c20:owner-groups-over-argc-limit " + strconv.Itoa(g) + "_groups_" + strconv.Itoa(n) + "_words_in_one_line"
 						} else {
 							verdict = "FAIL restore-argc-limit " + strconv.Itoa(n) + "_words_in_one_line"
 						}
